@@ -157,8 +157,24 @@ func collectVisits(fn *ssa.Function, prm *ssa.Parameter, stmtV, listV *ssa.Funct
 				return
 			}
 			// an element of a local array of children
+			// … `*(&arr[i])`, or `(*arr)[i]` when the range statement copied the array first
+			type elemRef struct {
+				X     ssa.Value
+				Index ssa.Value
+			}
+			var ia *elemRef
 			if ld, isL := arg.(*ssa.UnOp); isL && ld.Op == token.MUL {
-				if ia, isI := ld.X.(*ssa.IndexAddr); isI {
+				if x, isI := ld.X.(*ssa.IndexAddr); isI {
+					ia = &elemRef{x.X, x.Index}
+				}
+			}
+			if ix, isIx := arg.(*ssa.Index); isIx {
+				if ld, isL := ix.X.(*ssa.UnOp); isL && ld.Op == token.MUL {
+					ia = &elemRef{ld.X, ix.Index}
+				}
+			}
+			if ia != nil {
+				{
 					if arr, isA := ia.X.(*ssa.Alloc); isA && arrayLen(arr.Type()) >= 0 {
 						// the loop that walks the array: `idx < len` (index loop) or the range form, over all of it
 						neutral := map[ssa.Value]bool{}
@@ -191,7 +207,7 @@ func collectVisits(fn *ssa.Function, prm *ssa.Parameter, stmtV, listV *ssa.Funct
 			return
 		}
 		// a helper that receives child positions (directly, or as the elements of a variadic list)
-		if f.Pkg != fn.Pkg || len(f.Blocks) == 0 || isCheckFn[f] {
+		if pkgOf(f) != fn.Pkg || len(f.Blocks) == 0 || isCheckFn[f] {
 			return
 		}
 		for _, sv := range helperVisitSummary(f, stmtV, listV, isCheckFn, 0) {
@@ -292,6 +308,35 @@ func c08Pass(c *Ctx, rtp string, k2s map[int64]string, s2k map[string]int64, wri
 				}
 			}
 		})
+		if !ok {
+			// … or hands its list to a helper of the package that does (one level; generic helpers included)
+			lp := listV.Params[len(listV.Params)-1]
+			allInstrs(listV, func(in ssa.Instruction) {
+				call, ok2 := in.(*ssa.Call)
+				if !ok2 {
+					return
+				}
+				h := call.Call.StaticCallee()
+				if h == nil || pkgOf(h) != pk || len(h.Blocks) == 0 || len(controlling(call.Block())) != 0 {
+					return
+				}
+				for k, a := range call.Call.Args {
+					if ct, isCT := a.(*ssa.ChangeType); isCT {
+						a = ct.X
+					}
+					if a != ssa.Value(lp) || k >= len(h.Params) {
+						continue
+					}
+					allInstrs(h, func(i2 ssa.Instruction) {
+						if c2, isC := i2.(*ssa.Call); isC && c2.Call.StaticCallee() == stmtV {
+							if p := path(c2.Call.Args[len(c2.Call.Args)-1]); strings.HasSuffix(p, "[*]") && strings.HasPrefix(p, pname(h.Params[k])) {
+								ok = true
+							}
+						}
+					})
+				}
+			})
+		}
 		r.Ob("CHILD-VISIT", tag+".RunStmtsCheck visits nodes[*]", t.Pos(listV.Pos()), ok, "the list visitor must visit every element")
 	}
 	astPkg := t.ByPath[pAst].Types
@@ -381,6 +426,10 @@ func c08Pass(c *Ctx, rtp string, k2s map[int64]string, s2k map[string]int64, wri
 			for _, ec := range controlling(hit.call.Block()) {
 				if hit.neutral[ec.Cond] {
 					continue
+				}
+				if bo, isB := ec.Cond.(*ssa.BinOp); isB && isNilConst(bo.Y) && len(hit.call.Call.Args) > 0 && bo.X == hit.call.Call.Args[len(hit.call.Call.Args)-1] &&
+					((bo.Op == token.NEQ && ec.Pol) || (bo.Op == token.EQL && !ec.Pol)) {
+					continue // a nil test of the very value that is visited (an element of the local array of children)
 				}
 				cls := classifyGuard(ec, prm, w, stmtV, listV)
 				facts = append(facts, ec.String()+" ["+cls+"]")
@@ -842,7 +891,7 @@ func c08LoopDepth(c *Ctx, tag string, fn, listV *ssa.Function) {
 		}
 		sum(0, 0)
 		r.Ob("LOOP-DEPTH", key+" pushes the loop marker before the body visit", t.Pos(via.Pos()), okBody,
-			"while the body is checked (inside "+via.Call.StaticCallee().Name()+") the marker stack must be exactly one deeper than at entry")
+			"while the body is checked (inside "+fnName(via.Call.StaticCallee())+") the marker stack must be exactly one deeper than at entry")
 		body = via
 	} else {
 		okBody := true
@@ -977,7 +1026,7 @@ func c08Registry(c *Ctx) {
 func checkedOnNilArm(at ssa.Instruction, script ssa.Value) bool {
 	for _, ec := range controlling(at.Block()) {
 		if bo, ok := ec.Cond.(*ssa.BinOp); ok && isNilConst(bo.Y) {
-			if call, ok := bo.X.(*ssa.Call); ok && call.Call.StaticCallee() != nil && call.Call.StaticCallee().Name() == "Check" {
+			if call, ok := bo.X.(*ssa.Call); ok && call.Call.StaticCallee() != nil && fnName(call.Call.StaticCallee()) == "Check" {
 				if (bo.Op == token.NEQ && !ec.Pol) || (bo.Op == token.EQL && ec.Pol) {
 					if call.Call.Args[0] == script {
 						return true
@@ -1052,7 +1101,7 @@ func c08LoadChecks(c *Ctx) {
 			okk := false
 			for _, ec := range controlling(ret.Block()) {
 				if bo, ok := ec.Cond.(*ssa.BinOp); ok && isNilConst(bo.Y) {
-					if call, ok := bo.X.(*ssa.Call); ok && call.Call.StaticCallee() != nil && call.Call.StaticCallee().Name() == "Check" {
+					if call, ok := bo.X.(*ssa.Call); ok && call.Call.StaticCallee() != nil && fnName(call.Call.StaticCallee()) == "Check" {
 						if (bo.Op == token.NEQ && !ec.Pol) || (bo.Op == token.EQL && ec.Pol) {
 							okk = true
 						}
@@ -1299,7 +1348,7 @@ func c08CallCheckSpec(cf *ssa.Function, prm *ssa.Parameter, listV *ssa.Function)
 		if len(args) > 0 {
 			last = args[len(args)-1].String()
 		}
-		switch cal.Name() {
+		switch fnName(cal) {
 		case "GetFuncCall", "GetFn":
 			if last == pname(prm)+".Name" {
 				return sval{tup: []sval{symv("fn"), symv("hasFn")}}, true
